@@ -9,6 +9,7 @@
     off_spelling_any_case parse_deny_iff_documented documented_off_denied
     plugin_tables_agree spellings_probed lower_model_exact
     graph_disabled_no_exec flag_only_affects_code_blocks parse_ignores_flag_without_code
+    graph_disabled_completes_only_without_code graph_disabled_reachable_code_fails
 -/
 import Genshi.Model.Exec
 import Genshi.Lemmas.ExecGraph
@@ -630,6 +631,159 @@ theorem flag_only_affects_code_blocks (fuel pf : Nat) (cfg cfg' : Config) (root 
       simp only
       rw [gen_flag fuel pf fs hfs b' true t.cls k t s]
       rfl
+
+theorem st0_faithful (fs : FS) (b ar : Bool) : Faithful fs (st0 b ar) := by
+  intro k t h; simp [st0] at h
+
+theorem mkLoader_faithful (cfg : Config) (fs : FS) (root : Root) (st : St) (h : mkLoader cfg root = .ok st) :
+    Faithful fs st := by
+  rw [mkLoader_shape cfg root st h]; exact st0_faithful fs _ _
+
+theorem mkRoot_faithful (cfg : Config) (fs : FS) (rn : Nat) (st st' : St) (root : Root) (t : Tmpl)
+    (stack : List Nat) (hf : Faithful fs st) (h : mkRoot cfg fs rn st root = .ok (st', t, stack)) :
+    Faithful fs st' ∧ t.name = rn ∧ TF fs t := by
+  have parsed : ∀ c tf f (t : Tmpl), fs.lookup rn = some f → parseFile c tf rn f = .ok t → t.name = rn ∧ TF fs t := by
+    intro c tf f t hfl hp
+    obtain ⟨hi, hn⟩ := parse_items c tf rn f t hp
+    exact ⟨hn, ⟨f, by rw [hn]; exact hfl, hi⟩⟩
+  cases root with
+  | direct c s own =>
+      simp only [mkRoot] at h
+      cases hfl : fs.lookup rn with
+      | none => simp [hfl] at h
+      | some f =>
+          cases hdf : directFlag c s cfg.tmpl (if own = true then none else some cfg.loader) with
+          | none => simp [hdf] at h
+          | some tf =>
+              simp only [hdf, hfl] at h
+              cases hp : parseFile c tf rn f with
+              | error e => simp [hp] at h
+              | ok t1 =>
+                  simp only [hp] at h
+                  cases h
+                  exact ⟨hf, parsed c tf f _ hfl hp⟩
+  | load c d =>
+      simp only [mkRoot] at h
+      cases hl : load fs st rn c with
+      | error e => simp [hl] at h
+      | ok pr =>
+          obtain ⟨s1, t1⟩ := pr
+          simp only [hl] at h
+          cases h
+          obtain ⟨h1, _, h3, h4, _⟩ := load_faithful fs st st' rn c false t hf hl
+          exact ⟨h1, h3, h4⟩
+  | pluginFile p =>
+      simp only [mkRoot] at h
+      cases hpc : pluginCls p with
+      | none => simp [hpc] at h
+      | some c =>
+          simp only [hpc] at h
+          cases hl : load fs st rn c with
+          | error e => simp [hl] at h
+          | ok pr =>
+              obtain ⟨s1, t1⟩ := pr
+              simp only [hl] at h
+              cases h
+              obtain ⟨h1, _, h3, h4, _⟩ := load_faithful fs st st' rn c false t hf hl
+              exact ⟨h1, h3, h4⟩
+  | pluginString p =>
+      simp only [mkRoot] at h
+      cases hpc : pluginCls p with
+      | none => simp [hpc] at h
+      | some c =>
+          cases hr : pluginByFlag p st.flag with
+          | none => simp [hpc, hr] at h
+          | some row =>
+              cases hfl : fs.lookup rn with
+              | none => simp [hpc, hr, hfl] at h
+              | some f =>
+                  simp only [hpc, hr, hfl] at h
+                  cases h1 : row.strF with
+                  | none => simp [h1] at h
+                  | some tf =>
+                      cases h2 : row.strLF with
+                      | none => simp [h1, h2] at h
+                      | some lf =>
+                          simp only [h1, h2] at h
+                          cases hp : parseFile c tf rn f with
+                          | error e => simp [hp] at h
+                          | ok t1 =>
+                              simp only [hp] at h
+                              obtain ⟨hi, hn⟩ := parse_items c tf rn f t1 hp
+                              cases h
+                              refine ⟨?_, hn, ⟨f, by show fs.lookup t1.name = some f; rw [hn]; exact hfl, hi⟩⟩
+                              intro k t2 hk; simp [st0] at hk
+
+/-- **with execution disabled, a run completes only over a code-free tree**: if the experiment
+    ends without error then every template reachable from the root through includes (any depth,
+    any mode, cycles included — a cyclic tree never completes) is free of code blocks.
+    Contrapositive: a code block anywhere in the reachable tree makes the run fail. -/
+theorem graph_disabled_completes_only_without_code (fuel pf : Nat) (cfg : Config) (root : Root) (fs : FS)
+    (rn : Nat) (hist : List Nat) (hd : root.disabled cfg)
+    (hok : (run fuel pf cfg root fs rn hist).err = none) :
+    ∀ b, Reaches fs rn b → ∃ f, fs.lookup b = some f ∧ noCode f.items = true := by
+  unfold run at hok
+  cases hl : mkLoader cfg root with
+  | error e => rw [hl] at hok; cases hok
+  | ok st =>
+      rw [hl] at hok
+      simp only at hok
+      obtain ⟨hc, _⟩ := mkLoader_disabled cfg root st hd hl
+      have hf := mkLoader_faithful cfg fs root st hl
+      have hh : StClean (afterHistory fuel pf fs root st hist).1 ∧
+          Faithful fs (afterHistory fuel pf fs root st hist).1 := by
+        unfold afterHistory
+        cases root.usesLoader with
+        | true => exact ⟨(runHistory_clean fuel pf fs hist st hc).1, runHistory_faithful fuel pf fs hist st hf⟩
+        | false => exact ⟨hc, hf⟩
+      obtain ⟨hch, hfh⟩ := hh
+      generalize afterHistory fuel pf fs root st hist = h at hch hfh hok
+      unfold finish at hok
+      cases hm : mkRoot cfg fs rn h.1 root with
+      | error e => rw [hm] at hok; cases hok
+      | ok pr =>
+          obtain ⟨st', t, stack⟩ := pr
+          rw [hm] at hok
+          simp only at hok
+          obtain ⟨hc', ht, _⟩ := mkRoot_disabled cfg fs rn h.1 st' root t stack hd hch hm
+          obtain ⟨hf', hname, htf⟩ := mkRoot_faithful cfg fs rn h.1 st' root t stack hfh hm
+          rcases hg : gen fuel pf fs true t.cls stack t st' with ⟨s2, e2⟩
+          rw [hg] at hok
+          simp only at hok
+          subst hok
+          have hclean2 := (gen_clean fuel pf fs true t.cls stack t st' hc' ht)
+          have hgrow2 := gen_grows fuel pf fs true t.cls stack t st' hf'
+          rw [hg] at hclean2 hgrow2
+          have hclosure := gen_closure fuel pf fs true t.cls stack t st' s2 hf' htf hg
+          obtain ⟨f, hfl, hitems⟩ := htf
+          rw [hname] at hfl
+          intro b hb
+          cases hb with
+          | refl => exact ⟨f, hfl, by rw [← hitems]; exact ht⟩
+          | step _ n _ hinc hnb =>
+              obtain ⟨f', p, dyn, hfl', hmem⟩ := hinc
+              rw [hfl] at hfl'
+              cases hfl'
+              rw [← hitems] at hmem
+              obtain ⟨abs, t2, hlk⟩ := hclosure n p dyn hmem b hnb
+              obtain ⟨hn2, f2, hf2, hi2⟩ := hgrow2.1 _ _ hlk
+              have hn2' : t2.name = b := hn2
+              refine ⟨f2, by rw [← hn2']; exact hf2, ?_⟩
+              rw [← hi2]
+              exact hclean2.1.2 _ _ hlk
+
+/-- a code block anywhere in the tree reachable from a disabled root: the run fails — in
+    particular when the root template itself holds one -/
+theorem graph_disabled_reachable_code_fails (fuel pf : Nat) (cfg : Config) (root : Root) (fs : FS)
+    (rn : Nat) (hist : List Nat) (hd : root.disabled cfg) (b : Nat) (f : File) (hb : Reaches fs rn b)
+    (hf : fs.lookup b = some f) (hcode : noCode f.items = false) :
+    (run fuel pf cfg root fs rn hist).err ≠ none := by
+  intro hok
+  obtain ⟨f', hf', hn⟩ := graph_disabled_completes_only_without_code fuel pf cfg root fs rn hist hd hok b hb
+  rw [hf] at hf'
+  cases hf'
+  rw [hcode] at hn
+  cases hn
 
 /-! ### non-vacuity of the hypotheses -/
 
